@@ -151,9 +151,20 @@ def r4_breakpoint_suppression_balanced(ctx, F):
             continue
         subs = [c.bb for c in f.calls if c.bb not in f.cleanup
                 and re.search(r"atomic::Atomic\w*(::<\w+>)?::fetch_sub$", c.name)]
+        # RAII form: a local guard whose Drop lowers the counter (dropped on every exit, unwinding included)
+        raii = set()
+        for d in F.fns.values():
+            m = re.search(r"<(.+) as std::ops::Drop>::drop$", d.qpath)
+            if m and d.crate == "starlark" and "src/debug/" in d.span and any(
+                    re.search(r"atomic::Atomic\w*(::<\w+>)?::fetch_sub$", c.name) for c in d.calls):
+                raii.add(re.sub(r"<.*", "", m.group(1)).split("::")[-1])
+        guards = [st.bb for st in f.stmts if st.kind.startswith("agg adt ") and st.bb not in f.cleanup
+                  and st.kind.split("::")[-1] in raii]
         for a in adds:
             n += 1
-            ctx.check(bool(subs) and f.must_pass(a.bb, subs, f.returns()), "C18.R4",
+            ok = bool(subs) and f.must_pass(a.bb, subs, f.returns())
+            ok = ok or (bool(guards) and (f.must_pass(a.bb, guards, f.returns()) or any(f.dominates(g, a.bb) for g in guards)))
+            ctx.check(ok, "C18.R4",
                       "suppression-balanced:" + short_fn(f.qpath),
                       "every path from the counter's increment to a return decrements it",
                       "`%s` raises the breakpoint-suppression counter and can return without lowering it (the decrement "
